@@ -24,6 +24,7 @@ KEY_D10 = 'shuffled-grid-search-cannot-be-hosted'
 KEY_EVO_SEEN = 'evolution-restart-resets-num-trials-seen'
 KEY_EVO_SAMPLER = 'evolution-restart-resets-sampler-state'
 KEY_CMA_QUEUE = 'cmaes-restart-loses-partial-population'
+KEY_CMA_HOST = 'cmaes-cannot-be-hosted'
 
 
 # ------------------------------------------------------------------ spaces
@@ -667,7 +668,7 @@ def cmaes_stage(c, n_cases):
 
 
 # ------------------------------------------------------------------ policy level (in-RAM supporter)
-def policy_stage(c, n_cases, dumps_seen, with_cma):
+def policy_stage(c, n_cases):
   """PartiallySerializableDesignerPolicy: one policy object kept alive (keeps its designer) vs a new
   policy object per request (restores the designer from the study metadata it wrote)."""
   from vizier import pythia
@@ -721,17 +722,19 @@ def policy_stage(c, n_cases, dumps_seen, with_cma):
                   'PartiallySerializableDesignerPolicy(%s): rebuilding the policy from study metadata changes step %d (%s): live %s, rebuilt %s' % (kind, i, f, short(a[i][f], 300), short(b[i][f], 300)),
                   dict(case, step=i, field=f, live=a[i][f], rebuilt=b[i][f]))
     if ci == 0:
-      c.sample({'policy-level': case})
+      c.sample(limit=12, case={'policy-level': case})
 
 
 # ------------------------------------------------------------------ the real service
 class Service:
   """a study on a real SQLite-file backed VizierServicer; `restart()` = new servicer, same file"""
+  n_db = 0
 
   def __init__(self, problem, algorithm, tmpdir):
     from vcheck import svc
     self.svc = svc
-    self.url = 'sqlite:///' + os.path.join(tmpdir, 'c13_%d.db' % random.getrandbits(40))
+    Service.n_db += 1
+    self.url = 'sqlite:///' + os.path.join(tmpdir, 'c13_%d.db' % Service.n_db)
     self.sv = svc.make_servicer(self.url)
     self.problem = problem
     self.name = svc.create_study(self.sv, spec=study_spec(problem, algorithm)).name
@@ -772,11 +775,10 @@ class Service:
     return metadata_util.from_key_value_list(spec.metadata).ns(ROOT).ns('designer')
 
 
-def service_run(c, sv, steps, restarts, measure, live=None, live_every_step=None):
-  """drive the study; when `live` (a local designer kept alive, run A) is given it is fed the very
-  trials of the service and asked for the same counts.  Returns per-step records."""
-  from vizier import algorithms as vza
-  recs, pending, fed = [], [], set()
+def service_run(c, sv, steps, restarts, measure):
+  """drive the study: optional server restart, complete some pending trials, one SuggestTrials
+  request per step (a new client id each time).  Returns per-step records."""
+  recs, pending = [], []
   for i, st in enumerate(steps):
     if restarts[i]:
       sv.restart()
@@ -809,6 +811,26 @@ def d10_witness(c, tmpdir):
     c.prop_fail(KEY_D10,
                 'SHUFFLED_GRID_SEARCH cannot be hosted: the first SuggestTrials of a study fails with %r (policy_factory passes shuffle_seed= to GridSearchDesigner.from_problem(problem, seed))' % (err or 'no trials')[:300],
                 {'algorithm': 'SHUFFLED_GRID_SEARCH', 'space': desc, 'request': 'SuggestTrials(count=2)', 'error': (err or '')[:500]})
+  return hostable
+
+
+def cmaes_host_witness(c, tmpdir):
+  """CMA_ES on two DOUBLE parameters: can the service host it?  (The designer itself runs: see
+  cmaes_available.)"""
+  desc = [{'name': 'x', 'kind': 'double', 'lo': 0.0, 'hi': 1.0, 'scale': None},
+          {'name': 'y', 'kind': 'double', 'lo': 0.0, 'hi': 1.0, 'scale': None}]
+  sv = Service(build_problem(desc), 'CMA_ES', tmpdir)
+  try:
+    trials, err = sv.suggest(1)
+  except Exception as e:  # pylint: disable=broad-except
+    trials, err = [], '%s: %s' % (type(e).__name__, e)
+  c.traces += 1
+  hostable = err is None and len(trials) == 1
+  c.flags['cmaesHostable'] = hostable
+  if not hostable:
+    c.prop_fail(KEY_CMA_HOST,
+                'CMA_ES cannot be hosted although CMAESDesigner(problem) works: the first SuggestTrials of a study fails with %r (the policy builds the designer with factory(problem, seed=None); CMAESDesigner forwards seed=None to CMA_ES_JAX -> jax.random.PRNGKey(None))' % (err or 'no trials')[:300],
+                {'algorithm': 'CMA_ES', 'space': desc, 'request': 'SuggestTrials(count=1)', 'error': (err or '')[:500]})
   return hostable
 
 
@@ -864,7 +886,7 @@ def service_grid_stage(c, n_cases, tmpdir, shuffled_ok):
                    'restarts': [{'k': j} for j, _ in enumerate(steps)]})
     cases.append((case, batches, md, names, seed))
     if ci == 0:
-      c.sample({'service-grid': case, 'first_batches': batches[:2], 'designer_metadata': md})
+      c.sample(limit=12, case={'service-grid': case, 'first_batches': batches[:2], 'designer_metadata': md})
   res = c.lean('C13', reqs)
   for j, (case, batches, md, names, seed) in enumerate(cases):
     judge, m = res[2 * j], res[2 * j + 1]
@@ -959,7 +981,7 @@ def service_shadow_stage(c, algorithm, n_cases, tmpdir, dumps_seen):
     c.traces += 2
     c.count(1, ('svc', algorithm, ci), kind='service:' + algorithm)
     if ci == 0:
-      c.sample({'service-vs-live-designer': {k: case[k] for k in ('algorithm', 'space')}, 'n_steps': len(steps), 'first_batch': recs[0]['svc']})
+      c.sample(limit=12, case={'service-vs-live-designer': {k: case[k] for k in ('algorithm', 'space')}, 'n_steps': len(steps), 'first_batch': recs[0]['svc']})
     if algorithm == 'NSGA2':
       for i, r in enumerate(recs):
         sp = [e for e in r['svc_dump'] if e[0] != '|num_trials_seen']
@@ -1026,13 +1048,15 @@ def run(c):
     timed('designer:nsga2', nsga_stage, c, 30 if quick else 300, dumps_seen)
     if with_cma:
       timed('designer:cmaes', cmaes_stage, c, 2 if quick else 12)
-    timed('policy', policy_stage, c, 12 if quick else 80, dumps_seen, with_cma)
+    timed('policy', policy_stage, c, 12 if quick else 80)
     timed('service:grid', service_grid_stage, c, 6 if quick else 40, tmpdir, shuffled_ok)
     timed('service:quasi_random', service_shadow_stage, c, 'QUASI_RANDOM_SEARCH', 2 if quick else 10, tmpdir, dumps_seen)
     timed('service:eagle', service_shadow_stage, c, 'EAGLE_STRATEGY', 2 if quick else 10, tmpdir, dumps_seen)
     timed('service:nsga2', service_shadow_stage, c, 'NSGA2', 1 if quick else 3, tmpdir, dumps_seen)
-    if with_cma and not quick:
-      timed('service:cmaes', service_shadow_stage, c, 'CMA_ES', 2, tmpdir, dumps_seen)
+    if with_cma:
+      cma_hosted = timed('witness:cmaes-hosted', cmaes_host_witness, c, tmpdir)
+      if cma_hosted and not quick:
+        timed('service:cmaes', service_shadow_stage, c, 'CMA_ES', 2, tmpdir, dumps_seen)
     c.coverage_extra['stage_wall_s'] = walls
   finally:
     shutil.rmtree(tmpdir, ignore_errors=True)
